@@ -186,4 +186,48 @@ theorem C11_source (c : Cfg) (content : Str) (ws : List Word) (m : List (Str × 
     have := C11_trie_keys c.alpha (sortWords ws.reverse) w ((hmem w).2 hw) ha
     rw [hb] at this; exact this
 
+
+/-! ## the tankan (single-kanji) dictionary: same source pipeline, map only; look-up = `get_tankan_candidates` -/
+
+/-- `TankanDictionary::get_candidates`: the written forms stored under exactly this reading, in stored order -/
+def tankanLookup (m : List (Str × List Word)) (input : Str) : List Str := ((findMap input m).getD []).map (·.word)
+
+theorem tankanLookup_eq (s : State) (input : Str) : tankanCandidates s input = tankanLookup s.tankan input := rfl
+
+/-- **Tankan look-up loses nothing and invents nothing**: for the map the builder makes from a source, a text is
+offered for a reading iff some conjugated word of some source entry has exactly that reading and that written form. -/
+theorem C11_tankan_exact (c : Cfg) (content : Str) (ws : List Word) (m : List (Str × List Word)) (keys : List Str)
+    (hws : allWords c (Chokan.DicText.readAll c.kanaClass c.alts c.kata content) = some ws)
+    (hb : buildMap c content = some (m, keys)) (input text : Str) :
+    text ∈ tankanLookup m input ↔ ∃ w ∈ ws, w.reading = input ∧ w.word = text := by
+  obtain ⟨hc, hs, _⟩ := C11_source c content ws m keys hws hb
+  unfold tankanLookup
+  constructor
+  · intro h
+    cases hf : findMap input m with
+    | none => rw [hf] at h; simp at h
+    | some l =>
+      rw [hf] at h
+      simp only [Option.getD_some, List.mem_map] at h
+      obtain ⟨w, hw, rfl⟩ := h
+      obtain ⟨hin, hk⟩ := hs input l w hf hw
+      exact ⟨w, hin, hk.symm, rfl⟩
+  · rintro ⟨w, hw, rfl, rfl⟩
+    obtain ⟨l, hl, hm⟩ := hc w hw
+    rw [hl]
+    simp only [Option.getD_some, List.mem_map]
+    exact ⟨w, hm, rfl⟩
+
+/-- … and a reading no source word has yields no candidate at all (the empty list, not an error). -/
+theorem C11_tankan_unknown (c : Cfg) (content : Str) (ws : List Word) (m : List (Str × List Word)) (keys : List Str)
+    (hws : allWords c (Chokan.DicText.readAll c.kanaClass c.alts c.kata content) = some ws)
+    (hb : buildMap c content = some (m, keys)) (input : Str) (hno : ∀ w ∈ ws, w.reading ≠ input) :
+    tankanLookup m input = [] := by
+  cases hl : tankanLookup m input with
+  | nil => rfl
+  | cons t r =>
+    have : t ∈ tankanLookup m input := by rw [hl]; exact List.mem_cons_self
+    obtain ⟨w, hw, hr, _⟩ := (C11_tankan_exact c content ws m keys hws hb input t).1 this
+    exact absurd hr (hno w hw)
+
 end Chokan.Props.C11
